@@ -316,6 +316,7 @@ class _:
 
 @contract(M + 'python_mpf_mul_int')
 class _:
+    search = 'mul_int_inputs'
     shapes = dict(s='mpf', n='int', prec='int')
     result = 'mpf'
     props = dict(wf=['C01'], bits=['C10'], value=['C02'])
@@ -933,6 +934,7 @@ class _:
 
 @contract(M + 'gmpy_mpf_mul_int')
 class _:
+    search = 'mul_int_inputs'
     shapes = dict(s='mpf', n='int', prec='int')
     result = 'mpf'
     props = dict(wf=['C37'], bits=['C37'], value=['C37'])
